@@ -18,7 +18,9 @@ type cenv struct {
 	st      *State // current state
 	old     *State // state at function entry / before the call
 	it0     *State // state at the loop header (step clauses)
+	pre     *State // state just before the loop was entered (loop clauses)
 	it0vars map[string]Val
+	qvars   map[string]Val // quantifier-bound variables (visible inside it0())
 	pkg     *types.Package
 	allocOld string // allocation counter at entry (fresh(x) <=> root(x) >= allocOld)
 	subs    map[string]string // placeholders for parenthesised sub-specs
@@ -36,6 +38,10 @@ func (c *cenv) clone() *cenv {
 	n.vars = map[string]Val{}
 	for k, v := range c.vars {
 		n.vars[k] = v
+	}
+	n.qvars = map[string]Val{}
+	for k, v := range c.qvars {
+		n.qvars[k] = v
 	}
 	return &n
 }
@@ -288,6 +294,7 @@ func (c *cenv) evalQuant(src string) Val {
 			}
 			c2 := c.clone()
 			c2.vars[name] = skv
+			c2.qvars[name] = skv
 			fv.instantiateLazies(sk, srt)
 			b := c2.eval(body)
 			if c2.err != nil && c.err == nil {
@@ -326,6 +333,7 @@ func (c *cenv) evalQuant(src string) Val {
 	}
 	c2 := c.clone()
 	c2.vars[name] = bv
+	c2.qvars[name] = bv
 	c2.pol = 0
 	fv.boundDepth++
 	b := c2.eval(body)
@@ -431,7 +439,16 @@ func (c *cenv) indexedElems(name, body string) map[string]bool {
 		c2.pol = 0
 		save := c.fv.inInst
 		c.fv.inInst++
-		x := c2.expr(ix.X)
+		var x Val
+		if _, lt, isL := c2.lvalue(ix.X); isL && lt != nil {
+			if a, isA := types.Unalias(lt).Underlying().(*types.Array); isA {
+				c.fv.inInst = save
+				out[canonType(a.Elem())] = true
+				return true
+			}
+		}
+		c2.err = nil
+		x = c2.expr(ix.X)
 		c.fv.inInst = save
 		if c2.err != nil || x.Typ == nil {
 			ok = false
@@ -468,6 +485,7 @@ func (fv *FnVC) instantiate(lq *lazyQuant, idx string) {
 	v := lq.proto
 	v.T = idx
 	c2.vars[lq.name] = v
+	c2.qvars[lq.name] = v
 	c2.pol = -1
 	c2.ante = nil
 	c2.guard = and(lq.guard, lq.mkGuard(idx))
@@ -1037,13 +1055,41 @@ func (c *cenv) call(e *ast.CallExpr) Val {
 				c.err = c2.err
 			}
 			return v
+		case "pre":
+			if c.pre == nil {
+				return c.fail("pre() only inside loop clauses")
+			}
+			c2 := *c
+			c2.st = c.pre
+			v := c2.expr(e.Args[0])
+			if c2.err != nil {
+				c.err = c2.err
+			}
+			return v
+		case "callarg":
+			fid, ok1 := e.Args[0].(*ast.Ident)
+			il, ok2 := e.Args[1].(*ast.BasicLit)
+			if !ok1 || !ok2 {
+				return c.fail("callarg(function, index)")
+			}
+			if v, ok := c.st.ghost["arg:"+fid.Name+"."+il.Value]; ok {
+				return v
+			}
+			// no such call on this path: an unconstrained value (the clause cannot be proved from it)
+			return Val{K: KIface, T: fv.decl("nocall", "Iface"), Typ: types.NewInterfaceType(nil, nil)}
 		case "it0":
 			if c.it0 == nil {
 				return c.fail("it0() only inside loop step clauses")
 			}
 			c2 := *c
 			c2.st = c.it0
-			c2.vars = c.it0vars
+			c2.vars = map[string]Val{}
+			for k, v := range c.it0vars {
+				c2.vars[k] = v
+			}
+			for k, v := range c.qvars {
+				c2.vars[k] = v
+			}
 			v := c2.expr(e.Args[0])
 			if c2.err != nil {
 				c.err = c2.err
@@ -1172,7 +1218,7 @@ func (c *cenv) call(e *ast.CallExpr) Val {
 			x := c.expr(e.Args[0])
 			t := c.typeExpr(e.Args[1])
 			if t == nil || x.K != KIface {
-				return c.fail("bad is()")
+				return c.fail("bad is(): %s (kind %d, type %v)", exprString(e), x.K, t)
 			}
 			if types.IsInterface(t) {
 				return bval(and(not(eq("(itag "+x.T+")", "0")), "("+fv.implPred(t)+" (itag "+x.T+"))"))
